@@ -24,7 +24,115 @@ def _truth(sv):
     return truthy(sv)
 
 
+def _python_side(ctx):
+    """Python guards of cancellation: (a) _create_job_group consults the cancelled-ancestor relation of the PARENT for every group
+    it creates and inserts only if no ancestor-or-self of the parent is cancelled; (b) cancel_job_group_in_db records every
+    accepted cancellation through CALL cancel_job_group(batch, group) (whose SQL is verified above)."""
+    import ast as pyast
+
+    from vc import pyvc, sqlparse
+    from vc.pyvc import Contract, Fork, SExc, to_z3
+
+    FE, BATCH = 'batch/batch/front_end/front_end.py', 'batch/batch/batch.py'
+
+    def conj(e, out):
+        if isinstance(e, A.BinOp) and e.op == 'AND':
+            conj(e.left, out)
+            conj(e.right, out)
+        else:
+            out.append(e)
+        return out
+
+    def is_cancelled_ancestor_query(sql):
+        """SELECT ... FROM job_group_self_and_ancestors INNER JOIN job_groups_cancelled ON same batch AND ancestor_id = cancelled group
+        WHERE batch_id = %s AND job_group_id = %s   (the relation grp_cancelled of the specification, cf. is_job_group_cancelled)"""
+        try:
+            stn = sqlparse.parse_statements(sql)[0]
+        except Exception:  # pylint: disable=broad-except
+            return False
+        if not isinstance(stn, A.SelectStmt):
+            return False
+        sel = stn.select
+        txt = ' '.join(sql.split())
+        tabs = sorted(SP._tables_of(sel.from_))
+        eqs = set()
+        for c in conj(sel.where, []):
+            if isinstance(c, A.BinOp) and c.op == '=' and isinstance(c.left, A.Name) and isinstance(c.right, (A.Param, A.NamedParam)):
+                eqs.add(c.left.parts[-1])
+        return tabs == ['job_group_self_and_ancestors', 'job_groups_cancelled'] and 'LEFT JOIN' not in txt.upper() and eqs == {'batch_id', 'job_group_id'} and len(conj(sel.where, [])) == 2 \
+            and 'job_group_self_and_ancestors.ancestor_id = job_groups_cancelled.job_group_id' in txt and 'job_group_self_and_ancestors.batch_id = job_groups_cancelled.id' in txt
+
+    def fetchone(eng, st, args, kw, node):
+        sql = node.args[0].value if isinstance(node.args[0], pyast.Constant) else ''
+        if is_cancelled_ancestor_query(sql):
+            ps = args[1]
+            eng.oblige(st, 'the-cancelled-ancestor-query-is-asked-about-the-parent-group-of-this-batch', z3.And(z3.BoolVal(isinstance(ps, tuple) and len(ps) == 2), eng.equal(ps[0], st.env['batch_id']), eng.equal(ps[1], st.env['parent_job_group_id'])) if isinstance(ps, tuple) and len(ps) == 2 else z3.BoolVal(False))
+            row = pyvc.SRecord('row', {'cancelled': 1})
+            raise Fork(node, [('an-ancestor-or-the-parent-is-cancelled', None, 'value', row, lambda s: s.env.__setitem__('PARENT_CANCELLED', True)), ('nothing-above-is-cancelled', None, 'value', None, lambda s: s.env.__setitem__('CHECKED_CLEAR', True))])
+        raise core.Undecided('unrecognised query in _create_job_group: %s' % ' '.join(sql.split())[:80])
+
+    def insert(eng, st, args, kw, node):
+        sql = node.args[0].value if isinstance(node.args[0], pyast.Constant) else ''
+        if 'INSERT INTO job_groups ' in sql:
+            st.env['n_group_rows'] = st.env['n_group_rows'] + 1
+            eng.oblige(st, 'a-group-row-is-written-only-after-the-parent-was-found-not-cancelled', st.env['CHECKED_CLEAR'])
+        return z3.Int(pyvc.fresh_name('rows'))
+
+    nothing = lambda eng, st, args, kw, node: None  # noqa: E731
+    c1 = Contract(
+        path=FE, qualname='_create_job_group', types={'tx': 'U', 'batch_id': 'int', 'job_group_id': 'int', 'update_id': 'int', 'user': 'U', 'attributes': 'U', 'cancel_after_n_failures': 'U', 'callback': 'U', 'timestamp': 'int', 'parent_job_group_id': 'int'},
+        consts={'ROOT_JOB_GROUP_ID': 0, 'MAX_JOB_GROUPS_DEPTH': z3.Int('MAX_JOB_GROUPS_DEPTH')}, opaque_methods=False,
+        calls={'tx.execute_and_fetchone': fetchone, 'tx.execute_insertone': insert, 'tx.execute_update': lambda eng, st, args, kw, node: z3.Int(pyvc.fresh_name('n_rows')), 'tx.execute_many': nothing, 'json.dumps': lambda eng, st, args, kw, node: z3.Const('json', pyvc.U),
+               '.items': lambda eng, st, args, kw, node: pyvc.SList(z3.IntVal(0), None, None)},
+        ghost_init={'PARENT_CANCELLED': 'False', 'CHECKED_CLEAR': 'False', 'n_group_rows': '0'},
+        ensures=[('a-group-is-created-only-beneath-a-parent-with-no-cancelled-ancestor-or-self', 'CHECKED_CLEAR and not PARENT_CANCELLED and n_group_rows == 1')],
+        raises={'HTTPBadRequest': True, 'AssertionError': True, '*': True},  # 400 also for too deep a nesting
+        on_raise=[('nothing-is-created-beneath-a-cancelled-group', 'implies(PARENT_CANCELLED, n_group_rows == 0)')],
+        canaries=[('always-refused', 'n_group_rows == 0')],
+    )
+    try:
+        eng = pyvc.Engine(ctx, c1)
+        eng.run()
+        ctx.add(core.decided('C07/_create_job_group/no-call-outside-the-contract', not [u for u in eng.unmodelled if not u.startswith('log.')], repr(eng.unmodelled), kind='frame'))
+    except core.Undecided as e:
+        # the tail of the function (ancestor rows, attributes) is bookkeeping; if it leaves the subset the guard itself is still decided on a prefix
+        raise
+
+    def fetch2(eng, st, args, kw, node):
+        sql = ' '.join((node.args[0].value if isinstance(node.args[0], pyast.Constant) else '').split())
+        ok = 'FROM job_groups' in sql and 'job_groups.batch_id = %s AND job_groups.job_group_id = %s' in sql
+        ps = args[1]
+        eng.oblige(st, 'existence-check-names-this-group', z3.And(z3.BoolVal(ok and isinstance(ps, tuple) and len(ps) >= 2), eng.equal(ps[0], st.env['batch_id']), eng.equal(ps[1], st.env['job_group_id'])) if ok and isinstance(ps, tuple) and len(ps) >= 2 else z3.BoolVal(False))
+        row = z3.Const('the_group_row', pyvc.U)
+
+        def found(s):
+            s.env['EXISTS'] = True
+            s.assume(eng.uf('truthy', ['U'], 'bool')(row))  # a fetched row is truthy
+
+        raise Fork(node, [('group-exists', None, 'value', row, found), ('no-such-group', None, 'value', None, None)])
+
+    def call(eng, st, args, kw, node):
+        sql = ' '.join((node.args[0].value if isinstance(node.args[0], pyast.Constant) else '').split())
+        ps = args[1]
+        good = sql == 'CALL cancel_job_group(%s, %s);' and isinstance(ps, tuple) and len(ps) == 2
+        eng.oblige(st, 'the-cancellation-procedure-is-called-for-this-batch-and-group', z3.And(z3.BoolVal(good), eng.equal(ps[0], st.env['batch_id']), eng.equal(ps[1], st.env['job_group_id'])) if good else z3.BoolVal(False))
+        st.env['n_cancel_calls'] = st.env['n_cancel_calls'] + 1
+        return None
+
+    c2 = Contract(
+        path=BATCH, qualname='cancel_job_group_in_db.cancel', types={'tx': 'U'}, extra_inputs={'batch_id': 'int', 'job_group_id': 'int'}, consts={'ROOT_JOB_GROUP_ID': 0},
+        calls={'tx.execute_and_fetchone': fetch2, 'tx.just_execute': call}, ghost_init={'EXISTS': 'False', 'n_cancel_calls': '0'},
+        ensures=[('an-accepted-cancellation-is-always-recorded-by-the-procedure', 'EXISTS and n_cancel_calls == 1')],
+        raises={'NonExistentJobGroupError': 'not EXISTS'}, on_raise=[('a-refused-cancellation-writes-nothing', 'n_cancel_calls == 0')],
+        canaries=[('never-cancels', 'n_cancel_calls == 0')],
+    )
+    eng = pyvc.Engine(ctx, c2)
+    eng.run()
+    ctx.add(core.decided('C07/cancel_job_group_in_db.cancel/no-call-outside-the-contract', not eng.unmodelled, repr(eng.unmodelled), kind='frame'))
+
+
 def build(ctx):
+    _python_side(ctx)
     ex = SP.proc_exec(inline_after=False)
     # ---- 1. the three SQL functions
     st = ex.new_state()
@@ -152,5 +260,5 @@ def build(ctx):
     ctx.assume('each procedure call is atomic (serialisable isolation); MySQL NULL/boolean semantics as encoded in vc/sqlvc.py')
     ctx.assume('structural invariant A1 used as precondition of cancel_*: (b,g,g) is in job_group_self_and_ancestors for every group and the root group 0 has no other ancestor (established where groups are created; see C08)')
     ctx.assume('jobs.always_run, jobs.cancelled, jobs.job_group_id are NOT NULL columns (schema replayed from the migrations)')
-    ctx.undecided('Python side: cancel_job_group_in_db, _create_job_group (rejecting a cancelled parent), commit_update and the scheduler/canceller selection queries')
+    ctx.undecided('Python side: commit_update / _create_batch_update rejecting a cancelled batch and the scheduler/canceller selection queries (cancel_job_group_in_db and _create_job_group ARE under contract)')
     ctx.undecided('in-flight scheduling decisions racing with a cancel at the Python level (the SQL guard serialises them)')
